@@ -93,6 +93,7 @@ def main():
     import logging; logging.disable(logging.CRITICAL)
     from ttconv.scc.disassembly import get_scc_word_disassembly
     from ttconv.scc.line import SccLine
+    from ttconv.scc.word import SccWord
     rows = []; dis_fail = []
     for v in range(65536):
         try:
@@ -104,13 +105,38 @@ def main():
             d = get_scc_word_disassembly(w, sc)
             if not d: dis_fail.append((v, "empty disassembly"))
             if (d == "{??}") != (r[0] == 8): dis_fail.append((v, f"disassembly {d!r} for class {r[0]}"))
+    # "only channel-1 field-1 data is ever decoded", at the reader: after a control-range word that is NOT a channel-1 field-1 code
+    # (a channel-2 or field-2 code, an XDS / unknown word with first byte below 10h) the printable pairs that follow belong to that other
+    # service: a pop-on caption AA <w> BB must read as "AA".  S here is the classification of Spec/Cea608Words.v through impl_row (class 8 =
+    # unknown, channel != 1), the observation is ttconv.scc.reader.to_model on a three-line file.
+    import ttconv.scc.reader as _scc_reader
+    from ttconv.scc.codes import SccChannel as _Chan
+    def _caption_text(doc):
+        import ttconv.model as _m
+        return "".join(e.get_text() for e in doc.get_body().dfs_iterator() if isinstance(e, _m.Text)) if doc.get_body() is not None else ""
+    others = [v for v in range(0x0100, 0x2000) if (v & 0x7F7F) == v and (v & 0xFF) != 0
+              and (lambda w: w.byte_1 < 0x20 and w.get_channel() is not _Chan.CHANNEL_1)(SccWord.from_value(v))]
+    chan_fail, n_chan = [], 0
+    for v in run.rng.sample(others, min(len(others), 160 if run.tier == "quick" else len(others))):
+        w = f"{v:04x}"
+        text = f"Scenarist_SCC V1.0\n\n00:00:01:00\t9420 9470 c1c1 {w} c2c2 942f\n\n00:00:03:00\t942c\n"
+        try:
+            got = _caption_text(_scc_reader.to_model(text))
+        except Exception as ex:
+            got = f"raised {type(ex).__name__}"
+        n_chan += 1
+        if got != "AA": chan_fail.append((w, got))
+    if chan_fail:
+        run.violation(f"data following the non-channel-1 word {chan_fail[0][0]} is decoded as channel-1 caption text: 'AA' expected, {chan_fail[0][1]!r} read "
+                      f"({len(chan_fail)} of {n_chan} words)", dict(kind="S-on-code", clause="only channel-1 field-1 data is ever decoded",
+                      stream=f"9420 9470 c1c1 {chan_fail[0][0]} c2c2 942f", read=chan_fail[0][1], failures=[list(x) for x in chan_fail[:20]]))
+    run.cov["non_channel_1_words_followed_by_text"] = n_chan
     # lines of up to 4 words: the line disassembly renders every word, in order
     n_lines = 3000 if run.tier == "quick" else 60000
     for _ in range(n_lines):
         k = run.rng.randrange(1, 5); ws = [run.rng.randrange(65536) for _ in range(k)]
         tc = "%02d:%02d:%02d:%02d" % (run.rng.randrange(24), run.rng.randrange(60), run.rng.randrange(60), run.rng.randrange(30))
         line = SccLine.from_str(tc + "\t" + " ".join("%04x" % w for w in ws))
-        from ttconv.scc.word import SccWord
         want = tc + "\t" + "".join(get_scc_word_disassembly(SccWord.from_value(w)) for w in ws)
         if line is None or line.to_disassembly() != want: dis_fail.append((ws, "line disassembly differs from the concatenation of its words"))
     logging.disable(logging.NOTSET)
